@@ -236,7 +236,7 @@ package tree
 //@     invariant [separate_storage] arr(lowsupportbranches) != arr(edges)
 //@     invariant [branches] forall k int :: 0 <= k && k < len(edges) ==> edges[k] != nil
 //@     invariant [sound] forall k int :: 0 <= k && k < len(lowsupportbranches) ==> lowsupportbranches[k] != nil && lowsupport(lowsupportbranches[k], support)
-//@     invariant [complete] forall j int :: 0 <= j && j <= rangeindex && lowsupport(edges[j], support) ==> (exists k int :: 0 <= k && k < len(lowsupportbranches) && lowsupportbranches[k] == edges[j])
+//@     invariant [complete] forall j int :: {edges[j]} 0 <= j && j <= rangeindex && lowsupport(edges[j], support) ==> (exists k int :: {lowsupportbranches[k]} 0 <= k && k < len(lowsupportbranches) && lowsupportbranches[k] == edges[j])
 
 //@ func (*tree.Tree).CollapseShortBranches
 //@   flag noframe
@@ -247,7 +247,7 @@ package tree
 //@     invariant [separate_storage] arr(shortbranches) != arr(edges)
 //@     invariant [branches] forall k int :: 0 <= k && k < len(edges) ==> edges[k] != nil
 //@     invariant [sound] forall k int :: 0 <= k && k < len(shortbranches) ==> shortbranches[k] != nil && shortbranch(shortbranches[k], length)
-//@     invariant [complete] forall j int :: 0 <= j && j <= rangeindex && shortbranch(edges[j], length) ==> (exists k int :: 0 <= k && k < len(shortbranches) && shortbranches[k] == edges[j])
+//@     invariant [complete] forall j int :: {edges[j]} 0 <= j && j <= rangeindex && shortbranch(edges[j], length) ==> (exists k int :: {shortbranches[k]} 0 <= k && k < len(shortbranches) && shortbranches[k] == edges[j])
 
 //@ func (*tree.Tree).CollapseTopoDepth
 //@   flag noframe
@@ -258,4 +258,4 @@ package tree
 //@     invariant [separate_storage] arr(depthbranches) != arr(edges)
 //@     invariant [branches] forall k int :: 0 <= k && k < len(edges) ==> edges[k] != nil
 //@     invariant [sound] forall k int :: 0 <= k && k < len(depthbranches) ==> depthbranches[k] != nil && indepth(depthbranches[k], mindepthThreshold, maxdepthThreshold)
-//@     invariant [complete] forall j int :: 0 <= j && j <= rangeindex && indepth(edges[j], mindepthThreshold, maxdepthThreshold) ==> (exists k int :: 0 <= k && k < len(depthbranches) && depthbranches[k] == edges[j])
+//@     invariant [complete] forall j int :: {edges[j]} 0 <= j && j <= rangeindex && indepth(edges[j], mindepthThreshold, maxdepthThreshold) ==> (exists k int :: {depthbranches[k]} 0 <= k && k < len(depthbranches) && depthbranches[k] == edges[j])
